@@ -10,6 +10,8 @@
 #include <cstring>
 #include <cinttypes>
 
+// enums that a hostile XML document may fill with any number are read as ints (no UB on the harness side)
+static inline int enum_int(const void *p) { int v; memcpy(&v, p, sizeof v); return v; }
 struct WFError { std::vector<std::string> msgs; void add(const std::string &s){ if (msgs.size()<20) msgs.push_back(s);} bool ok() const {return msgs.empty();} };
 
 typedef std::set<unsigned> USet;
@@ -87,7 +89,7 @@ static uint64_t wf_obj(WFCtx &c, hwloc_obj_t o, hwloc_obj_t parent, unsigned ran
   if (o->type==HWLOC_OBJ_NUMANODE) { WFCHK(ns.size()==1 && *ns.begin()==o->os_index, "NUMA nodeset != {os_index} "<<oid(o)); WFCHK(cns==ns, "NUMA complete_nodeset"); WFCHK(c.numa_os.insert(o->os_index).second, "dup NUMA os_index"); WFCHK(o->memory_arity==0, "NUMA with memory children");
     if (!(c.flags&HWLOC_TOPOLOGY_FLAG_INCLUDE_DISALLOWED)) WFCHK(hwloc_bitmap_isset(hwloc_topology_get_allowed_nodeset(c.topo),o->os_index), "NUMA not allowed"); }
   if (o->type==HWLOC_OBJ_MACHINE) WFCHK(!parent, "Machine not root");
-  if (is_cache(o->type)) { unsigned d=o->attr->cache.depth; int t=o->attr->cache.type; bool ic = o->type>=HWLOC_OBJ_L1ICACHE;
+  if (is_cache(o->type)) { unsigned d=o->attr->cache.depth; int t=enum_int(&o->attr->cache.type); bool ic = o->type>=HWLOC_OBJ_L1ICACHE;
     if (ic) WFCHK(t==HWLOC_OBJ_CACHE_INSTRUCTION && d==(unsigned)(o->type-HWLOC_OBJ_L1ICACHE+1), "icache attr mismatch "<<oid(o));
     else WFCHK((t==HWLOC_OBJ_CACHE_UNIFIED||t==HWLOC_OBJ_CACHE_DATA) && d==(unsigned)(o->type-HWLOC_OBJ_L1CACHE+1), "cache attr mismatch "<<oid(o)); }
   // children lists
@@ -115,8 +117,8 @@ static uint64_t wf_obj(WFCtx &c, hwloc_obj_t o, hwloc_obj_t parent, unsigned ran
   if (!special) { int prev_first=-1; bool prev_empty=false; for (hwloc_obj_t ch=o->first_child; ch; ch=ch->next_sibling) { USet x; if(!to_uset(ch->complete_cpuset,x)) continue; int first = x.empty()?-1:(int)*x.begin(); if (first>=0) { WFCHK(!prev_empty, "child with CPUs after CPU-less child at "<<oid(o)); WFCHK(prev_first<first, "normal children not ordered by complete_cpuset at "<<oid(o)); } else prev_empty=true; prev_first=first; }
     prev_first=-1; for (hwloc_obj_t ch=o->memory_first_child; ch; ch=ch->next_sibling) { USet x; if(!to_uset(ch->complete_nodeset,x)) continue; int first = x.empty()?-1:(int)*x.begin(); WFCHK(prev_first<first, "memory children not ordered by complete_nodeset at "<<oid(o)); prev_first=first; } }
   if (o->type==HWLOC_OBJ_GROUP) WFCHK(o->attr->group.depth!=(unsigned)-1, "group depth unset at "<<oid(o));
-  if (o->type==HWLOC_OBJ_BRIDGE) { WFCHK(o->attr->bridge.upstream_type==HWLOC_OBJ_BRIDGE_HOST||o->attr->bridge.upstream_type==HWLOC_OBJ_BRIDGE_PCI, "bridge upstream type invalid at "<<oid(o)); WFCHK(o->attr->bridge.downstream_type==HWLOC_OBJ_BRIDGE_PCI, "bridge downstream type not PCI at "<<oid(o)); }
-  if (o->type==HWLOC_OBJ_OS_DEVICE) WFCHK((o->attr->osdev.types & ~(unsigned long)0x7f)==0, "osdev types has unknown bits at "<<oid(o));
+  if (o->type==HWLOC_OBJ_BRIDGE) { int up=enum_int(&o->attr->bridge.upstream_type), down=enum_int(&o->attr->bridge.downstream_type); WFCHK(up==HWLOC_OBJ_BRIDGE_HOST||up==HWLOC_OBJ_BRIDGE_PCI, "bridge upstream type invalid at "<<oid(o)); WFCHK(down==HWLOC_OBJ_BRIDGE_PCI, "bridge downstream type not PCI at "<<oid(o)); }
+  // (unknown OS-device type bits are tolerated: printing ignores them since the F-C11-a repair, and the battery checks that it terminates)
   WFCHK(o->total_memory==total, "total_memory "<<o->total_memory<<" != "<<total<<" at "<<oid(o));
   contrib_nodes = below;
   return total;
